@@ -236,6 +236,23 @@ Proof.
   all: try (eexists; eexists; split; [reflexivity|split; [reflexivity|repeat constructor]]).
   all: try (apply vt_tok; [exact I|repeat constructor]).
 Qed.
+(* LWS may be folds: "<a>" CRLF SP ";" CRLF SP "tag" SP "=" CRLF SP "x" SP CRLF - hypotheses satisfiable, closed form evaluated *)
+Definition c09_ex_fold : list byte := [13;10;32].
+Definition c09_ex_tf : pit := mkpit c09_ex_fold [116;97;103] (Some ([32], c09_ex_fold, [120])) [].
+Example C09_folded_parameters_example :
+  gap 0 c09_ex_fold /\ t_ok c09_ex_tf /\
+  headA [97] c09_ex_fold ++ its_bytes [] ++ t_body c09_ex_tf ++ [32] ++ CR :: LF :: [65]
+  = [60;97;62; 13;10;32; 59; 13;10;32; 116;97;103; 32; 61; 13;10;32; 120; 32; 13;10; 65] /\
+  t_d 7 c09_ex_tf = 19 /\
+  finW HdrFrom 19 (t_apply false 7 c09_ex_tf (its_state false 7 [] (bA 0 1)))
+  = mkpfrom pf0 (mkpf 1 1) (mkpf 18 1) false false false HdrFrom 0 0 (mkpf 10 9) (mkpf 0 19) EOk 0 FbFIN 0 0 0 0 0.
+Proof.
+  assert (Wf : wsrun 0 c09_ex_fold) by (apply (wsrun_fold 0 [] [32]); [constructor|repeat constructor|discriminate]).
+  assert (Ws : wsrun 0 [32]) by (apply wsrun_blanks; [discriminate|repeat constructor]).
+  split; [right; exact Wf|]. split; [|split; [vm_compute; reflexivity|split; vm_compute; reflexivity]].
+  unfold t_ok, c09_ex_tf. cbn [t_g1 t_name t_val t_g4]. split; [right; exact Wf|]. split; [exists 116, [97;103]; split; [reflexivity|split; [reflexivity|repeat constructor]]|].
+  split; [split; [right; exact Ws|split; [right; exact Wf|apply vt_tok; [exact I|constructor]]]|left; reflexivity].
+Qed.
 (* ---- any display name in front of the bracketed URI: token words, or a quoted string, then more words ----------------------------------- *)
 Theorem C09_display_name_uri : forall h (junk D uri sp : list byte) x tail, disp D -> Forall uchar uri -> spaces sp -> is_sp x = false ->
   let i0 := nnat (length junk) in let us := i0 + nnat (length D) + 1 in let lu := nnat (length uri) in
